@@ -99,7 +99,7 @@ class C08(Check):
             js.append(dict(kind='neigh', cfg='fine', sparse=True, cell=list(c0)))
         js.append(dict(kind='point', cfg='default', window=0))
         js.append(dict(kind='point', cfg='default', window=1))
-        js.sort(key=lambda j: 0 if j['kind'] in ('register', 'segq') else 1)
+        js.sort(key=lambda j: (0 if j['cfg'] in ('fine', 'coarser') else 1, 0 if j['kind'] in ('register', 'segq') else 1))      # scale probes first
         return js
 
     def patches(self, job):
